@@ -234,8 +234,12 @@ class DataCollection:
                 if self.write_to_disk.wait(0.5):
                     for ds in self.datasets:
                         ds.write()
-                    self.write_to_disk.clear()
+                    # Signal completion before accepting the next request: once
+                    # write_to_disk is cleared the recording thread may stage and
+                    # trigger the next write, whose write_finished.clear() must
+                    # not be overtaken by this (then stale) set().
                     self.write_finished.set()
+                    self.write_to_disk.clear()
         except KeyboardInterrupt:
             pass
         finally:
@@ -246,5 +250,5 @@ class DataCollection:
         if self.write_to_disk.wait(0.5):
             for ds in self.datasets:
                 ds.write()
-            self.write_to_disk.clear()
             self.write_finished.set()
+            self.write_to_disk.clear()
